@@ -9,7 +9,7 @@ RULE = ("cases = (encoded array, index) for every array of length 1..L over {0,1
         "oracle = the same index applied to the dense array; non-trivial = the array has at least two runs and the result is non-empty")
 ASSUMPTIONS = ["oracle: numpy indexing of the dense array; values only", "out-of-range integers are outside the statement and not issued",
                "results that are run-length arrays must also satisfy the constructor invariant (C14)"]
-REQUIRED_FEATURES = ["negative_int", "bound_beyond_end", "negative_step", "empty_result", "rl_mask", "rl_mask_not_canonical", "dense_mask", "window_pair", "list_with_repeats", "close_float_values",
+REQUIRED_FEATURES = ["negative_int", "bound_beyond_end", "negative_step", "empty_result", "rl_mask", "rl_mask_not_canonical", "dense_mask", "list_of_bools_mask", "window_pair", "list_with_repeats", "close_float_values",
                      "step_larger_than_run"]
 BOUNDS = {"quick": "all arrays over {0,1,2} of length 1..4 and those of length 5 starting with 0 x {every int in [-L,L-1]; every list of length<=2; every dense and run-length mask; every slice with "
                    "start,stop in {None} u [-(L+2),L+2] and step in {None,+-1,+-2,+-3,+-4}; every vector of 1-2 windows}",
@@ -75,6 +75,7 @@ def cases(shard, tier):
                 yield [t, ["arr", list(idx)]]
     for m in itertools.product([0, 1], repeat=L):
         yield [t, ["mask", list(m)]]
+        yield [t, ["listmask", list(m)]]
         yield [t, ["rlmask", list(m)]]
         yield [t, ["rlmask_cmp", list(m)]]
     wins = [(s, e) for s in range(L) for e in range(s + 1, L + 1)]
@@ -123,7 +124,7 @@ def check(case, acc):
         exp = dense_obs(e, dt=False)
         f = lambda: dense_obs(np.asarray(r[sel]), dt=False)
         f2 = None
-    elif kind in ("mask", "rlmask", "rlmask_cmp"):
+    elif kind in ("mask", "listmask", "rlmask", "rlmask_cmp"):
         mm = np.array(idx[1], dtype=bool)
         e = a[mm]
         exp = dense_obs(e, dt=False)
@@ -132,6 +133,9 @@ def check(case, acc):
         if kind == "mask":
             acc.feature("dense_mask")
             f = lambda: dense_obs(np.asarray(r[mm]), dt=False)
+        elif kind == "listmask":
+            acc.feature("list_of_bools_mask")       # numpy: a plain list of bools is a mask, not the positions 0 / 1
+            f = lambda: dense_obs(np.asarray(r[[bool(b) for b in idx[1]]]), dt=False)
         elif kind == "rlmask":
             acc.feature("rl_mask")
             f = lambda: _rla_obs(r[RunLengthArray.from_array(mm)], joined=False)
